@@ -252,9 +252,12 @@ Definition md_objs (md : option (list json)) : Prop :=
   match md with None => True | Some l => Forall (fun x => is_obj x = true) l end.
 Definition md_len (md : option (list json)) (n : nat) : Prop :=
   match md with None => True | Some l => length l = n end.
+(* an entry that is None or an empty mapping holds nothing *)
+Definition holds_nothing (j : json) : bool :=
+  match j with JNull => true | JObj [] => true | _ => false end.
 (* the constructor never keeps a metadata tuple whose entries are all empty *)
 Definition md_normal (md : option (list json)) : Prop :=
-  match md with None => True | Some l => existsb py_truthy l = true end.
+  match md with None => True | Some l => forallb holds_nothing l = false end.
 
 Definition wfj (c : jtable) : Prop :=
   length (j_mat c) = jnobs c /\ rect (jnsamp c) (j_mat c)
@@ -296,10 +299,9 @@ Definition jrecords (ids : list str) (md : option (list json)) : list json :=
 Definition element_type (c : jtable) : str :=
   if (0 <? jnobs c)%nat && (0 <? jnsamp c)%nat then K "float" else K "int".
 
-(* table.py:4966-4969: a table without observations gets "rows": [] and "columns": [] *)
+(* table.py:5043-5047: an axis without IDs is written as an empty list *)
 Definition w_rows (c : jtable) : json := JArr (jrecords (j_oids c) (j_omd c)).
-Definition w_columns (c : jtable) : json :=
-  if (jnobs c =? 0)%nat then JArr [] else JArr (jrecords (j_sids c) (j_smd c)).
+Definition w_columns (c : jtable) : json := JArr (jrecords (j_sids c) (j_smd c)).
 
 Definition w_id (tid : str) := (K "id", JStr tid).
 Definition w_format := (K "format", JStr FORMAT_1_0).
@@ -325,11 +327,6 @@ Definition to_json_fields_direct (c : jtable) (tid : str) : list (str * json) :=
 Definition to_json_tree (c : jtable) (tid : str) : json := JObj (to_json_fields c tid).
 Definition to_json_tree_direct (c : jtable) (tid : str) : json := JObj (to_json_fields_direct c tid).
 
-(* table.py:4957-4964: with observations but no samples the "columns" list is opened and
-   never closed: the text is not JSON at all *)
-Definition writer_closes_columns (c : jtable) : bool :=
-  (jnobs c =? 0)%nat || negb (jnsamp c =? 0)%nat.
-
 (* ------------------------------------------------------------------ reader, tree layer *)
 Definition zeros (nr nc : nat) : matrix := repeat (repeat 0 nc) nr.
 Definition mset (m : matrix) (i j : nat) (v : Z) : matrix := upd m i (upd (nth i m []) j v).
@@ -343,11 +340,12 @@ Definition dense_of_triples (nr nc : nat) (ts : list (nat * nat * Z)) : matrix :
 Definition val_code (j : json) : result Z :=
   match numval j with Some v => ROk v | None => RErr E_UNMODELLED end.
 
-(* scipy coo_matrix: integer coordinates inside the shape, else ValueError *)
+(* _check_coordinates, table.py:5428-5433: integer coordinates inside the shape given by the
+   IDs, else TableException *)
 Definition coord (nr nc : nat) (x y v : json) : result (nat * nat * Z) :=
   match x, y with
   | JInt a, JInt b =>
-      if (a <? 0) || (Z.of_nat nr <=? a) || (b <? 0) || (Z.of_nat nc <=? b) then RErr E_VALUE
+      if (a <? 0) || (Z.of_nat nr <=? a) || (b <? 0) || (Z.of_nat nc <=? b) then RErr E_TABLE
       else c <- val_code v ;; ROk (Z.to_nat a, Z.to_nat b, c)
   | _, _ => RErr E_UNMODELLED
   end.
@@ -371,7 +369,7 @@ Definition dense_entries (nr nc : nat) (data : list json) : result (list (nat * 
       if forallb (fun r => (length r =? length r0)%nat) rows then
         let ts := triples rows in
         if forallb (fun t => let '(i, j, _) := t in (i <? nr)%nat && (j <? nc)%nat) ts
-        then ROk ts else RErr E_VALUE
+        then ROk ts else RErr E_TABLE
       else RErr E_VALUE
   end.
 
@@ -388,9 +386,10 @@ Definition to_sparse (data : json) (dense : bool) (nr nc : nat) : result matrix 
   | _ => RErr E_TABLE                                     (* "Unknown input type" *)
   end.
 
-(* constructor, table.py:495-513 then _cast_metadata 660-686 *)
+(* constructor, table.py:500-522 then _cast_metadata 683-705: entries that are None or an
+   empty mapping hold nothing; any other non-mapping is refused by the cast *)
 Definition cast_md (md : list json) : result (option (list json)) :=
-  if negb (existsb py_truthy md) then ROk None
+  if forallb holds_nothing md then ROk None
   else
     l <- mapM (fun x => match x with
                         | JObj _ => ROk x
@@ -439,7 +438,7 @@ Definition from_json (j : json) : result jtable :=
 (* what a reader can tell about per-ID metadata: a tuple of all-empty entries and no metadata
    at all are written and read back alike (constructor, table.py:495-513) *)
 Definition md_canon (md : option (list json)) : option (list json) :=
-  match md with None => None | Some l => if existsb py_truthy l then Some l else None end.
+  match md with None => None | Some l => if forallb holds_nothing l then None else Some l end.
 Definition canon_jt (c : jtable) : jtable :=
   mkJT (j_oids c) (j_sids c) (j_mat c) (md_canon (j_omd c)) (md_canon (j_smd c))
        (j_type c) (j_genby c) (j_date c).
